@@ -537,4 +537,75 @@ theorem findZone_shift (zones : List (List String)) : ∀ (l : List String) (i k
       have := findZone_shift zones t (i + 1) k
       rw [show i + k + 1 = i + 1 + k by omega]; exact this
 
+
+/-! ### alias chase -/
+
+/-- a hop the composer may use: cached, live at age `el`, NOERROR alias or terminal without baggage -/
+def UsableHop (cache : List Hop) (el : Nat) (id : Nat) : Prop :=
+  ∃ h, cache[id]? = some h ∧ el < h.ttl * 1000 ∧ (h.kind = .cname ∨ h.kind = .terminal)
+
+theorem walkChase_spec (cache : List Hop) (qtOK : Bool) (el : Nat) :
+    ∀ (fuel cur : Nat) (visited acc ids : List Nat),
+      walkChase cache qtOK el fuel cur visited acc = some ids →
+      ids.length ≤ maxWireChaseHops ∧ acc.length < ids.length ∧
+      (∀ id ∈ ids, id ∈ acc ∨ UsableHop cache el id) ∧
+      (∃ last h, ids.getLast? = some last ∧ cache[last]? = some h ∧ h.kind = .terminal ∧ qtOK = true) := by
+  intro fuel
+  induction fuel with
+  | zero => intro cur visited acc ids h; simp [walkChase] at h
+  | succ n ih =>
+    intro cur visited acc ids h
+    unfold walkChase at h
+    by_cases hlen : acc.length ≥ maxWireChaseHops
+    · simp [hlen] at h
+    · rw [if_neg hlen] at h
+      cases hc : cache[cur]? with
+      | none => simp [hc] at h
+      | some hop =>
+        simp only [hc] at h
+        by_cases hexp : hop.ttl * 1000 ≤ el
+        · simp [hexp] at h
+        · rw [if_neg hexp] at h
+          have hlive : el < hop.ttl * 1000 := by omega
+          cases hk : hop.kind with
+          | terminal =>
+            simp only [hk] at h
+            cases qtOK with
+            | false => simp at h
+            | true =>
+              simp only [if_true, Option.some.injEq] at h
+              subst h
+              refine ⟨by simp; omega, by simp, ?_, cur, hop, by simp, hc, hk, rfl⟩
+              intro id hid
+              rcases List.mem_append.mp hid with h1 | h1
+              · exact Or.inl h1
+              · simp at h1; subst h1
+                exact Or.inr ⟨hop, hc, hlive, Or.inr hk⟩
+          | cname =>
+            simp only [hk] at h
+            by_cases ht0 : hop.target = 0
+            · simp [ht0] at h
+            · rw [if_neg ht0] at h
+              by_cases hv : hop.target ∈ visited
+              · simp [hv] at h
+              · rw [if_neg hv] at h
+                obtain ⟨h1, h2, h3, h4⟩ := ih _ _ _ _ h
+                refine ⟨h1, by simp at h2; omega, ?_, h4⟩
+                intro id hid
+                rcases h3 id hid with h5 | h5
+                · rcases List.mem_append.mp h5 with h6 | h6
+                  · exact Or.inl h6
+                  · simp at h6; subst h6
+                    exact Or.inr ⟨hop, hc, hlive, Or.inl hk⟩
+                · exact Or.inr h5
+          | nxdomain => simp [hk] at h
+          | nodata => simp [hk] at h
+          | baggage => simp [hk] at h
+          | missing => simp [hk] at h
+
+theorem foldl_and_eq_all (l : List Hop) (b : Bool) : l.foldl (fun acc h => acc && h.ad) b = (b && l.all (·.ad)) := by
+  induction l generalizing b with
+  | nil => simp
+  | cons h t ih => simp [List.foldl, ih, Bool.and_assoc]
+
 end SdnsVerif.Lemmas.WirePath
